@@ -243,6 +243,34 @@ func (d *driver) concCall(cfg *ipa.IPAConfig, op string, g, i int) []int {
 			b := cp[j].Bytes()
 			h.Write(b[:])
 		}
+	case "dupbatch":
+		// BatchNormalize / ElementsToBytes on a LONG list that names the same few projective elements again and again (a prover's
+		// commitment list with one commitment opened at many points), so that every internal worker's range holds occurrences of the
+		// same pointer: whatever the workers do per occurrence they do at the same moment on the same element.  The reply holds the
+		// full coordinates afterwards (a value rescaled twice has Z = 1 and is still a multiple of the same x/y).
+		nd := 2 + (g+i)%3
+		pool := projPool(cfg)
+		for rep := 0; rep < 8; rep++ {
+			cp := make([]banderwagon.Element, nd)
+			for j := range cp {
+				cp[j] = pool[(g*13+i*5+rep*3+j)%len(pool)]
+			}
+			n := 64 + 37*((g+i+rep)%9)
+			ptrs := make([]*banderwagon.Element, n)
+			for j := range ptrs {
+				ptrs[j] = &cp[j%nd]
+			}
+			err := banderwagon.BatchNormalize(ptrs)
+			h.Write([]byte(fmt.Sprint(err == nil)))
+			for j := range cp {
+				b := cp[j].BytesUncompressedTrusted()
+				h.Write(b[:])
+				h.Write([]byte(fmt.Sprint(cp[j].Equal(&pool[(g*13+i*5+rep*3+j)%len(pool)]))))
+			}
+			for _, b := range banderwagon.ElementsToBytes(ptrs[:n/2]...) {
+				h.Write(b[:])
+			}
+		}
 	case "serde":
 		// (de)serialisation and every scalar decoder / printer: proofs read back from their bytes and written again, canonical and
 		// reducing scalar decoders, decimal strings, big integers above the modulus - the helpers that borrow pooled temporaries
